@@ -440,6 +440,21 @@ def verify_function(fname):
     return obs
 
 
+def nport_task(t):
+    import nport
+    f, n, seed, pat = t
+    t0 = time.time()
+    kind = "symbolic" if seed is None else "exact-rational-instance(seed=%s,z0-pattern=%s)" % (seed, pat)
+    try:
+        r = nport.verify(f, n, seed, pat)
+        return [dict(function=f, obligation="n=%d %s %s" % (n, name, kind), ok=bool(ok), nport=True, bounded=seed is not None,
+                     residual=None if ok else "n-port obligation failed", seconds=round(time.time() - t0, 2)) for name, ok in r]
+    except nport.Abort as e:
+        return [dict(function=f, obligation="n=%d PARSE" % n, ok=None, residual=str(e), seconds=0)]
+    except Exception as e:  # pragma: no cover
+        return [dict(function=f, obligation="n=%d INTERNAL" % n, ok=None, residual=repr(e)[:300], seconds=0)]
+
+
 def all_functions():
     fs = []
     for x in TYPES:
@@ -514,6 +529,22 @@ def main():
     with mp.Pool(int(os.environ.get("VERIF_JOBS", "16"))) as pool:
         res = pool.map(verify_function, fs, chunksize=1)
     obs = [o for r in res for o in r]
+    # ---- n-port functions (nport.py): symbolic at n = 1, 2; exact rational instances at n = 3 (4 in thorough)
+    import nport
+    ntasks = []
+    for f in nport.all_functions():
+        if a.only and not re.search(a.only, f):
+            continue
+        ntasks += [(f, 1, None, None), (f, 2, None, None)]
+        pats3 = [None, (0, 0, 0), (0, 1, 0), (0, 0, 2), (0, 1, 1)]
+        for k, pt in enumerate(pats3):
+            ntasks.append((f, 3, 100 + k, pt))
+        if a.tier != "quick":
+            for k, pt in enumerate([None, (0, 1, 2, 0), (0, 1, 1, 0), (0, 0, 2, 2)]):
+                ntasks.append((f, 4, 200 + k, pt))
+    with mp.Pool(int(os.environ.get("VERIF_JOBS", "16"))) as pool:
+        nres = pool.map(nport_task, ntasks, chunksize=1)
+    obs += [o for r in nres for o in r]
     infra = [o for o in obs if o["ok"] is None]
     failed = [o for o in obs if o["ok"] is False]
     good = [o for o in obs if o["ok"]]
@@ -528,7 +559,7 @@ def main():
         for f, os_ in sorted(byf.items()):
             wit = None
             try:
-                wit = numeric_witness(f, lib) if lib else None
+                wit = numeric_witness(f, lib) if (lib and re.fullmatch(r"vnaconv_[a-z]to([a-z]|zi)", f)) else None
             except Exception as e:  # pragma: no cover
                 wit = None
             path = os.path.join(rdir, f + ".json")
@@ -551,14 +582,17 @@ def main():
             samples=[dict(function=o["function"], obligation=o["obligation"], ok=o["ok"], extraction_sha256_16=o.get("sha"))
                      for o in obs[:12]],
             infrastructure_problems=[o["function"] + ": " + str(o["residual"]) for o in infra],
-            excluded_functions=["n-port functions vnaconv_*n / *tozin (loops + linear solver): not covered by slvc"],
+            nport_obligations=len([o for o in obs if o.get("nport")]),
+            nport_bounded_obligations=len([o for o in obs if o.get("bounded")]),
+            nport_note="n-port functions: symbolic proof at n = 1, 2 (incl. agreement with the two-port function at n = 2); at n = 3 (and 4 in thorough) exact-rational INSTANCES with structured z0 patterns (equal / first==last / all distinct ...): polynomial identity testing, labelled bounded, not proof",
             evaluations=len(fs), distinct_nontrivial=len(fs),
             rule="one evaluation = one two-port function, parsed from the repository and verified symbolically",
             technique="generated VCs over exact complex arithmetic, discharged by sympy",
         ),
         assumptions=["exact complex arithmetic instead of IEEE-754 (machine arithmetic treated as mathematical)",
                      "inputs away from the zero set of the printed denominators; Re z0 > 0",
-                     "n-port functions and numerical behaviour at singular inputs are not covered"],
+                     "linear kernels (_vnacommon_mldivide/mrdivide/minverse) by exact contract (X = A^-1 B etc.); their numerics are C19",
+                     "n >= 3: instances only (bounded); numerical behaviour at singular inputs is not covered"],
         wall_s=round(time.time() - t0, 1), violations=len(failed))
     os.makedirs(os.path.join(VERIF, "evidence"), exist_ok=True)
     json.dump(ev, open(os.path.join(VERIF, "evidence", "C04.json"), "w"), indent=1)
